@@ -73,6 +73,12 @@ namespace opensmt::tokens {
     };
     inline const std::unordered_set<std::string> tokenNames = {
         "none",
+        // tokens of the lexer that are not command names
+        "!",
+        "_",
+        "DECIMAL",
+        "NUMERAL",
+        "STRING",
         "as",
         "decimal",
         "numeral",
